@@ -9,7 +9,7 @@ import vlib
 class E2Session:
     def __init__(self, run, scr, tier):
         self.run = run; self.scr = scr; self.tier = tier
-        self.cap = 60 if tier == 'quick' else 600
+        self.cap = 180 if tier == 'quick' else 900
         self.cross = []          # (name, primary verdict, z3-4.8 verdict)
         self.cases = []          # scalar replay cases (name, args) for sat models
         self.ncross = 0
